@@ -233,6 +233,9 @@ def _gen_relaxed_est(rng, cls):
         case["aligned"] = aligned
         den = {1: 64, 2: 32, 3: 8}[d]
         p = [_aligned_prob(rng, den) if aligned else _r(rng, 0.03, 0.97, 4) for _ in range(d)]
+        if case["kind"] == "probs" and rng.random() < 0.2:
+            # a variable that is certain (as a probability; the corresponding logit would not be finite)
+            p[rng.randrange(d)] = rng.choice([0.0, 1.0])
         case["p"] = p
         case["tables"] = [[_r(rng, lo, hi) for _ in range(2 ** d)] for _ in range(d)]
     else:
@@ -251,9 +254,16 @@ def _gen_relaxed_est(rng, cls):
             case["varmin"] = rng.random() < 0.3
         else:
             case["cv_a"] = _r(rng, -1.5, 1.5)
-            case["cv_s"] = _r(rng, 0.3, 2.0)
+            # (a control variate that still varies where a near-certain variable's relaxed sample lives, |z| ~ 16..36)
+            case["cv_s"] = _r(rng, 0.3, 2.0) if rng.random() < 0.7 else rng.choice([0.02, 0.05, 0.1])
             case["cv_t"] = _r(rng, -1.0, 1.0)
             case["varmin"] = False
+        if case.get("family") == "lb" and any(x in (0.0, 1.0) for x in case["p"]):
+            # directed: a certain variable together with a control variate that still varies far out
+            case.update(cv="smooth", cv_a=_r(rng, 0.5, 1.5) * rng.choice([-1, 1]), cv_s=rng.choice([0.02, 0.05, 0.1]),
+                        cv_t=_r(rng, -1.0, 1.0), varmin=False)
+            for k in ("temp", "eta"):
+                case.pop(k, None)
     return case
 
 
